@@ -50,13 +50,19 @@ class LimitDf:
                 cand = [None, 0] + sides + [s + 2 for s in sides] + [sides[-1] + 9]
                 # off-grid limits (fs * start not an integer: the uniform shift must still be uniform)
                 cand += [sides[0] - 0.5, sides[0] + 0.43]
-                for fs in (1, 4, 500):
+                variants = [(1, cand, sides), (4, cand, sides), (500, cand, sides)]
+                if n >= 1:
+                    # large sample indices at fs = 500 / 1000: (k / fs) * fs is then not always k in floating point
+                    for fs_, off in ((500, 1001), (1000, 4003)):
+                        s2 = [s + off for s in sides]
+                        variants.append((fs_, [None] + s2 + [s2[-1] + 7], s2))
+                for fs, cand, sides_v in variants:
                     for a, b in itertools.product(range(len(cand)), repeat=2):
                         st, sp = cand[a], cand[b]
                         if st is not None and sp is not None and st > sp:
                             continue
                         for reset in (True, False):
-                            yield dict(centre=centre, sides=sides, fs=fs, start=st, stop=sp, reset=reset, seed=seed)
+                            yield dict(centre=centre, sides=sides_v, fs=fs, start=st, stop=sp, reset=reset, seed=seed)
 
     def nontrivial(self, c):
         return len(c['sides']) >= 3 and (c['start'] is not None or c['stop'] is not None)
